@@ -427,7 +427,7 @@ func (s *Style) PrintExpr(e *Expr) string {
 }
 
 func (s *Style) isAtomForm(e *Expr) bool {
-	return (e.Op == "lit" || e.Op == "var" || e.Op == "call") && e.Par == 0
+	return (e.Op == "lit" || e.Op == "var" || e.Op == "call" || e.Op == "member") && e.Par == 0
 }
 
 func (s *Style) printExpr(e *Expr) string {
@@ -445,6 +445,9 @@ func (s *Style) printExpr(e *Expr) string {
 			return "!" + s.ws(false) + inner
 		}
 		return "!" + s.ws(false) + "(" + s.ws(false) + s.PrintExpr(e.L) + s.ws(false) + ")"
+	case "member":
+		// member of a method result: T.Ptr(1, F.A).X
+		return s.printExpr(e.L) + s.ws(false) + "." + s.ws(false) + e.Fn
 	case "call":
 		var b strings.Builder
 		if e.Recv != nil {
